@@ -44,9 +44,13 @@ UReq(e) ==
          isCheck == Checked /\ reqs = 0
          exp  == IF isCheck THEN Build("GetPrinterAttributes", <<>>, 0, uriV)
                  ELSE Build("PrintJob", Calls(a.args), 0, uriV)
+         \* the state query may ask for any subset of attributes: requested-attributes is not compared
+         seen == IF isCheck /\ Len(r.v) >= 1
+                 THEN [r.v EXCEPT ![1].attrs = [n \in (DOMAIN r.v[1].attrs) \ {N_req} |-> r.v[1].attrs[n]]]
+                 ELSE r.v
      IN /\ r.ok
         /\ e.hdr_ipp.ver = exp.ver /\ e.hdr_ipp.code = exp.code
-        /\ NormMsg(r.v) = NormMsg(exp.groups)
+        /\ NormMsg(seen) = NormMsg(exp.groups)
         /\ uriV.k = "Uri" /\ IsCanonOf(e.puri, a.target)
         /\ (isCheck => e.paylen = 0)
         /\ (~isCheck => /\ e.pay_ok                                   \* the document is the file, unchanged
